@@ -199,6 +199,16 @@ func verifLemmaRefGob(s string) (Ref, Ref, error) {
 	return r, r2, err
 }
 
+// the canonical form is a fixed point of the constructor: the string a reference prints parses back to an equal reference
+func verifLemmaNewRefIdempotent(s string) (Ref, Ref, error, error) {
+	r, err := NewRef(s)
+	if err != nil {
+		return r, Ref{}, err, nil
+	}
+	r2, err2 := NewRef(r.String())
+	return r, r2, nil, err2
+}
+
 func verifLemmaZeroRefJSON() ([]byte, error) {
 	var r Ref
 	return r.MarshalJSON()
@@ -380,6 +390,18 @@ func verifLemmaSchemaOrArrayFixedPoint(v SchemaOrArray) (first, second []byte) {
 // a union value that the decoder produced never encodes as null: inside its holder (a pointer member with omitempty) a
 // null member would be dropped on the next round, so the holder's encoding would not be a fixed point (C07)
 func verifLemmaSchemaOrArrayNeverNull(data []byte) []byte {
+	var w SchemaOrArray
+	if err := w.UnmarshalJSON(data); err != nil {
+		return nil
+	}
+	out, err := w.MarshalJSON()
+	if err != nil {
+		return nil
+	}
+	return out
+}
+
+func verifLemmaSchemaOrArrayRoundTrip(data []byte) []byte {
 	var w SchemaOrArray
 	if err := w.UnmarshalJSON(data); err != nil {
 		return nil
